@@ -3,4 +3,4 @@
 HERE="$(cd "$(dirname "$0")" && pwd)"
 cd "$HERE"
 PYTHONPATH="$HERE/lib" /venv/bin/python -c "import core; core.ensure_makefile()"
-cd coq && timeout ${MK_TIMEOUT:-1500} make -j12 --no-print-directory "$@" 2>&1 | grep -v "^COQC\|^COQDEP\|^CLEAN" 
+cd coq && flock build.lock timeout ${MK_TIMEOUT:-1500} make -j12 --no-print-directory "$@" 2>&1 | grep -v "^COQC\|^COQDEP\|^CLEAN" 
